@@ -2,6 +2,7 @@ package execute
 
 import (
 	"context"
+	"errors"
 	"fmt"
 	"time"
 
@@ -185,8 +186,11 @@ func readAllMessages(
 
 		// Read messages for each range.
 		for _, seqRange := range ranges {
-			// TODO: check if srcChain is supported.
 			msgs, err := ccipReader.MsgsBetweenSeqNums(ctx, srcChain, seqRange)
+			if errors.Is(err, reader.ErrContractReaderNotFound) {
+				// this node does not read srcChain: its messages are observed by the nodes that do.
+				break
+			}
 			if err != nil {
 				return exectypes.MessageObservations{}, err
 			}
